@@ -112,24 +112,33 @@ Definition int_to_decimal (oc : bool) (s : ity) (d : dty) (precision scale : Z) 
   obind (if 0 <? scale then checked (d_prim d) (v' * amt) else checked_div (d_prim d) v' amt) (fun val =>
   obind (validate_precision oc d val precision) (fun _ => Ok val)))).
 
-(* DecimalToDecimal<D1, D2>: bind + cast of one value; the rescaled value is validated against the
-   target precision.  NOTE: the source value is converted to the target primitive first. *)
+(* `<D1 as RescaleTo<D2>>::Wider`: i64 for Decimal64 -> Decimal64, i128 for the three other pairs,
+   i.e. the wider of the two primitives *)
+Definition wider (d1 d2 : dty) : ity :=
+  if i_bits (d_prim d1) <=? i_bits (d_prim d2) then d_prim d2 else d_prim d1.
+
+(* DecimalToDecimal<D1, D2>: bind + cast of one value.  Scale factor, rounding addition and the
+   rescaling itself are computed in the wider primitive; the rescaled value is then converted to
+   the target primitive (NumCast) and validated against the target precision. *)
 Definition decimal_to_decimal (oc : bool) (d1 d2 : dty) (scale1 precision2 scale2 : Z) (v : Z) : outcome Z :=
+  let w := wider d1 d2 in
   let scale_diff := scale1 - scale2 in
-  obind (checked_pow (d_prim d2) 10 (Z.abs scale_diff)) (fun amt =>
+  obind (checked_pow w 10 (Z.abs scale_diff)) (fun amt =>
   let rounding := if 0 <? scale_diff then Z.quot amt 2 else 0 in
-  obind (cast_int (d_prim d1) (d_prim d2) v) (fun v' =>
-  obind (if scale_diff <? 0 then checked (d_prim d2) (v' * amt)
+  obind (cast_int (d_prim d1) w v) (fun v' =>
+  obind (if scale_diff <? 0 then checked w (v' * amt)
          else if 0 <? scale_diff then
            let adj := if 0 <=? v' then rounding else - rounding in
-           obind (checked (d_prim d2) (v' + adj)) (fun w => checked_div (d_prim d2) w amt)
-         else Ok v') (fun r =>
+           obind (checked w (v' + adj)) (fun x => checked_div w x amt)
+         else Ok v') (fun r0 =>
+  (* `scaled.and_then(<D2::Primitive as NumCast>::from)` *)
+  obind (cast_int w (d_prim d2) r0) (fun r =>
   (* `Some(v) if D2::validate_precision(v, precision).is_ok()`, anything else is the cast error *)
   match validate_precision oc d2 r precision2 with
   | Ok _ => Ok r
   | Err => Err
   | Panic => Panic
-  end))).
+  end)))).
 
 (* ---------- floats ---------- *)
 (* IEEE binary format: mantissa bits (without the hidden bit), exponent bits *)
@@ -241,14 +250,18 @@ Fixpoint powi_loop (fuel : nat) (a r : fval) (b : Z) : fval :=
   end.
 Definition powi10 (n : Z) : fval := powi_loop 40 (FFin false 10 0) (FFin false 1 0) n.
 
-(* FloatToDecimal<S, D>: bind (mul_scale = NumCast::from(10f64.powi(|scale|)) into the source float
-   type) + cast of one value *)
+(* `<f64 as NumCast>::from(v)` for a float v: `v as f64` (exact for f32, the identity for f64) *)
+Definition to_f64 (f : fty) (bits : Z) : fval :=
+  match decode f bits with
+  | FFin n m e => round_float F64 n m e
+  | x => x
+  end.
+
+(* FloatToDecimal<S, D>: bind (mul_scale = 10f64.powi(|scale|), an f64) + cast of one value: the
+   value is widened to f64, multiplied (one IEEE rounding of the product), then .round() *)
 Definition float_to_decimal (oc : bool) (f : fty) (d : dty) (precision scale : Z) (bits : Z) : outcome Z :=
-  let mul_scale := match powi10 (Z.abs scale) with
-                   | FFin n m e => round_float f n m e           (* `as f32` / identity for f64 *)
-                   | x => x
-                   end in
-  match fmul f (decode f bits) mul_scale with
+  let mul_scale := powi10 (Z.abs scale) in
+  match fmul F64 (to_f64 f bits) mul_scale with
   | FNaN => Err                                                  (* NumCast::from(NaN) = None *)
   | FInf _ => Err
   | FFin neg m e =>
@@ -283,8 +296,17 @@ Definition float_int_spec (f : fty) (d : ity) (bits : Z) : outcome Z :=
   | FFin neg m e => int_spec d (signed neg (trunc_me m e))
   | _ => Err
   end.
+(* what a cast of the float (-1)^neg * m * 2^e to DECIMAL(p,s) must give: the exact product
+   m * 2^e * 10^s rounded to the nearest integer, halves away from zero *)
+Definition scaled_rha (m e s : Z) : Z :=
+  if 0 <=? e then m * 10 ^ s * 2 ^ e else rha_div (m * 10 ^ s) (2 ^ (- e)).
+Definition float_decimal_spec (f : fty) (p s : Z) (bits : Z) : outcome Z :=
+  match decode f bits with
+  | FFin neg m e => let r := signed neg (scaled_rha m e s) in if Z.abs r <? 10 ^ p then Ok r else Err
+  | _ => Err
+  end.
 
-(* ---------- the code before the repairs a2e764fa7 / 40311688b (kept for the witness lemmas) ---------- *)
+(* ---------- the code before the repairs a2e764fa7 / 40311688b / PENDING-1 (kept for the witness lemmas) ---------- *)
 Module Old.
 (* DecimalType::validate_precision before a2e764fa7 *)
 Definition validate_precision (oc : bool) (d : dty) (value precision : Z) : outcome unit :=
@@ -339,5 +361,39 @@ Definition float_to_decimal (oc : bool) (f : fty) (d : dty) (precision scale : Z
           else Err
       end
   end).
+
+(* DecimalToDecimal between 40311688b and PENDING-1: scale factor and rescaling in the TARGET
+   primitive, the source value converted to it first *)
+Definition decimal_to_decimal_narrow (oc : bool) (d1 d2 : dty) (scale1 precision2 scale2 : Z) (v : Z) : outcome Z :=
+  let scale_diff := scale1 - scale2 in
+  obind (checked_pow (d_prim d2) 10 (Z.abs scale_diff)) (fun amt =>
+  let rounding := if 0 <? scale_diff then Z.quot amt 2 else 0 in
+  obind (cast_int (d_prim d1) (d_prim d2) v) (fun v' =>
+  obind (if scale_diff <? 0 then checked (d_prim d2) (v' * amt)
+         else if 0 <? scale_diff then
+           let adj := if 0 <=? v' then rounding else - rounding in
+           obind (checked (d_prim d2) (v' + adj)) (fun w => checked_div (d_prim d2) w amt)
+         else Ok v') (fun r =>
+  match Cast.validate_precision oc d2 r precision2 with
+  | Ok _ => Ok r
+  | Err => Err
+  | Panic => Panic
+  end))).
+
+(* FloatToDecimal between 40311688b and PENDING-1: scale factor and product in the SOURCE float type *)
+Definition float_to_decimal_srcfmt (oc : bool) (f : fty) (d : dty) (precision scale : Z) (bits : Z) : outcome Z :=
+  let mul_scale := match powi10 (Z.abs scale) with
+                   | FFin n m e => round_float f n m e           (* `as f32` / identity for f64 *)
+                   | x => x
+                   end in
+  match fmul f (decode f bits) mul_scale with
+  | FNaN => Err
+  | FInf _ => Err
+  | FFin neg m e =>
+      let r := signed neg (round_half_away_me m e) in
+      if in_range (d_prim d) r then
+        obind (Cast.validate_precision oc d r precision) (fun _ => Ok r)
+      else Err
+  end.
 
 End Old.
